@@ -575,7 +575,7 @@ func reader_scan_trigDoc(r *Decoder, ectx evaluationContext, r0 cursorio.Decoded
 			nectx.CurSubjectLocation = blankNodeRange
 
 			r.pushState(ectx, reader_scan_triples_End)
-			r.pushState(ectx, reader_scan_PredicateObjectList_Continue)
+			r.pushState(nectx, reader_scan_PredicateObjectList_Continue)
 			r.pushState(nectx, reader_scan_PredicateObjectList_Required)
 
 			fn := scanFunc(func(r *Decoder, ectx evaluationContext, r0 cursorio.DecodedRune, err error) (readerStack, error) {
